@@ -24,7 +24,7 @@ RULE = (
     "assert) x input recipe (ints, lists, tuples, generators, iterators, dicts, strings, objects) x driver "
     "script for generators (next/send/throw/close/drop) x instrumentation configuration (tooled copy, "
     "in-place, probing on a generated subset of names incl. meta-variables and externals, two nested "
-    "probes, generic overlay, total probe). Non-trivial = the program uses >=1 form beyond plain name "
+    "probes, generic overlay, total probe, probe ended before step k of a still-alive generator). Non-trivial = the program uses >=1 form beyond plain name "
     "assignment/return (loop, try, with, unpack, walrus, import, nested scope, attribute/subscript store, "
     "generator) and the configuration instruments >=1 name the function binds; distinct by (source, "
     "input, script, configuration)."
